@@ -132,7 +132,7 @@ fn run_enumerate(ctx: &Ctx) -> Report {
     let mut report = Report::default();
     let p = Profile { max_stages: 6, max_input: 60, ..profile() };
     let counter = std::cell::Cell::new(0u64);
-    search(ctx, 2, ctx.cases(64, 2400), 60..300, &mut report, |choices, rep, shrinking| {
+    search(ctx, 2, ctx.cases(64, 960), 60..300, &mut report, |choices, rep, shrinking| {
         let mut g = Gen::new(choices, &p);
         let mut job = g.job();
         job.sink = [SinkKind::CollectVec, SinkKind::Collect, SinkKind::CollectCount, SinkKind::CollectVecAll][g.ch.weighted(&[5, 1, 2, 2])];
@@ -182,7 +182,7 @@ fn run(ctx: &Ctx, mode: &str) -> Report {
     let mut report = Report::default();
     let p = profile();
     let counter = std::cell::Cell::new(0u64);
-    search(ctx, 1, ctx.cases(480, 12000), 60..400, &mut report, |choices, rep, shrinking| {
+    search(ctx, 1, ctx.cases(480, 4800), 60..400, &mut report, |choices, rep, shrinking| {
         let mut g = Gen::new(choices, &p);
         let mut job = g.job();
         job.sink = [SinkKind::CollectVec, SinkKind::Collect, SinkKind::CollectCount, SinkKind::CollectVecAll][g.ch.weighted(&[5, 1, 2, 2])];
